@@ -67,6 +67,15 @@ def gen_inputs(ctx):
         for t in symgen.char_prefixes(symgen.inject_nonascii(rt, ctx.rng), ctx.rng, 2):
             wss.append(L.mk_ws(others + [[root, t]], root, ctx.rng, hover=False, completion=False))
             kinds.append("char-prefix")
+    # re-edit family: analyse, then set_file_content ONLY with the same tokens and different trivia, query again (symdump "reedit")
+    for files, root, reedit in symgen.reedit_cases(g2, ctx.rng, 40 if ctx.quick else 300):
+        w = L.mk_ws(files, root, ctx.rng, hover=False, completion=False)
+        w["reedit"] = reedit
+        wss.append(w)
+        kinds.append("re-edit")
+    for t in symgen.doc_space_cases(ctx.rng, 10 if ctx.quick else 60):
+        wss.append(L.mk_ws([["/w/main.td", t]], "/w/main.td", ctx.rng, hover=True, completion=False))
+        kinds.append("doc-space")
     # hand-written seeds: multi-byte characters directly before / after / between identifiers
     seeds = [
         "class Ä; class B : A;\n// é\r\nclass A { int x = 1; }\r\ndef d : A { let x = 2; } // 漢字",
@@ -152,7 +161,7 @@ def run(ctx):
                 files = L.shrink_files(files, e["ws"]["root"], pred, 15)
         ctx.violation("C17 violated on the real analysis: %s %s: %s" % (what, json.dumps(rng_), why),
                       {"property": "C17", "files": files, "root": e["ws"]["root"], "original_files": e["ws"]["files"],
-                       "hint_ranges": e["ws"].get("hint_ranges"), "what": what, "range": rng_, "why": why,
+                       "hint_ranges": e["ws"].get("hint_ranges"), "reedit": e["ws"].get("reedit"), "what": what, "range": rng_, "why": why,
                        "all": [list(x) for x in e["c17"][:10]], "seed": ctx.seed, "kind": kind,
                        "violating_workspaces_in_this_run": len(bad_inputs)})
         found = True
@@ -192,6 +201,8 @@ def replay(ctx, path):
     bindir = vlib.build_harness(True, bins=["symdump"])
     exe = vlib.build_model("symmap")
     w = L.mk_ws(obj["files"], obj["root"], None, hover=False, completion=False, hints=obj.get("hint_ranges") or "full")
+    if obj.get("reedit"):
+        w["reedit"] = obj["reedit"]      # second text, set with set_file_content only
     e = L.evaluate(bindir, exe, [w])[0]
     print("implementation: analysis problem:", e["c03"])
     if e["c03"] is None:
